@@ -15,7 +15,7 @@ pub struct MetaView<'a> {
 }
 
 /// concrete run of a scenario case on a real ciphersuite: (order, prop, params, seed, model) -> (checks, failures, suite)
-pub type RealRun<'a> = &'a dyn Fn(&str, &str, &Params, u64, &[(String, String)]) -> (u64, Vec<String>, String);
+pub type RealRun<'a> = &'a (dyn Fn(&str, &str, &Params, u64, &[(String, String)]) -> (u64, Vec<String>, String) + Sync);
 
 pub struct ReportArgs<'a> {
     pub prop: &'a str,
@@ -98,10 +98,16 @@ pub fn finish(args: ReportArgs, m: MetaView, cases: &[Params], items: &[(usize, 
     if nval > 0 {
         let step = (cases.len() / nval).max(1);
         let suites: Vec<&str> = args.validation_suites.clone();
-        for (j, ci) in (0..cases.len()).step_by(step).take(nval).enumerate() {
-            let order = suites[j % suites.len()];
+        // the concrete runs are independent of each other: spread over the cores
+        let picks: Vec<(usize, usize)> = (0..cases.len()).step_by(step).take(nval).enumerate().collect();
+        let threads = std::thread::available_parallelism().map(|n| n.get()).unwrap_or(8);
+        let outs = crate::driver::par_map(&picks, threads, &|(j, ci): &(usize, usize)| {
+            let order = suites[*j % suites.len()];
+            let seed = args.seed.wrapping_mul(1000).wrapping_add(*j as u64);
+            real_run_on(order, &prop, &cases[*ci], seed, &[])
+        });
+        for ((j, ci), (c, f, suite)) in picks.iter().copied().zip(outs.into_iter()) {
             let seed = args.seed.wrapping_mul(1000).wrapping_add(j as u64);
-            let (c, f, suite) = real_run_on(order, &prop, &cases[ci], seed, &[]);
             if c == 0 && f.is_empty() {
                 // a concrete run that checked nothing is no validation (e.g. the replay helper did not run)
                 conc_unusable += 1;
